@@ -245,3 +245,27 @@ package gateway
 //@   property C26
 //@   modifies *
 //@   ensures[shutdown_lock_balanced] calls("Safeops.LockSystem") == old(calls("Safeops.LockSystem")) + 1 && calls("Safeops.UnlockSystem") == old(calls("Safeops.UnlockSystem")) + 1
+
+// Conditional increments (property C06): the wire operator reaches the engine as the operator of the
+// same meaning (the engine's evaluation of each operator is proved in the swamp contracts).
+//@ func relationalOperatorToSwampRelationalOperator(operator) (out)
+//@   property C06
+//@   nopanic
+//@   ensures[equal] operator == hydraidepbgo.Relational_EQUAL ==> out == swamp.RelationalOperatorEqual
+//@   ensures[not_equal] operator == hydraidepbgo.Relational_NOT_EQUAL ==> out == swamp.RelationalOperatorNotEqual
+//@   ensures[greater] operator == hydraidepbgo.Relational_GREATER_THAN ==> out == swamp.RelationalOperatorGreaterThan
+//@   ensures[greater_or_equal] operator == hydraidepbgo.Relational_GREATER_THAN_OR_EQUAL ==> out == swamp.RelationalOperatorGreaterThanOrEqual
+//@   ensures[less] operator == hydraidepbgo.Relational_LESS_THAN ==> out == swamp.RelationalOperatorLessThan
+//@   ensures[less_or_equal] operator == hydraidepbgo.Relational_LESS_THAN_OR_EQUAL ==> out == swamp.RelationalOperatorLessThanOrEqual
+
+// Uint32SliceDelete, per key (property C06: every request returns). swamp.DeleteTreasure runs the delete
+// handler, which takes the guard of the record it deletes and waits for it; the request must therefore
+// NOT hold that record's guard when it asks for the record to be deleted (it would wait for itself).
+//@ trusted func (github.com/hydraide/hydraide/app/core/hydra/swamp.Swamp).DeleteTreasure(s, key, shadowDelete) (err)
+//@ trusted func (github.com/hydraide/hydraide/app/core/hydra/swamp/treasure.Treasure).Uint32SliceDelete(t, values) (err)
+//@ func (Gateway).Uint32SliceDelete$1()
+//@   property C06
+//@   modifies *
+//@   before Swamp.DeleteTreasure [C06:record_guard_not_held_when_deleting_the_record] calls("Treasure.StartTreasureGuard") - old(calls("Treasure.StartTreasureGuard")) == calls("Treasure.ReleaseTreasureGuard") - old(calls("Treasure.ReleaseTreasureGuard"))
+//@   ensures[guard_released] calls("Treasure.StartTreasureGuard") - old(calls("Treasure.StartTreasureGuard")) == calls("Treasure.ReleaseTreasureGuard") - old(calls("Treasure.ReleaseTreasureGuard"))
+//@   ensures[saved_under_the_guard] calls("Treasure.Uint32SliceDelete") > old(calls("Treasure.Uint32SliceDelete")) ==> calls("Treasure.Save") == old(calls("Treasure.Save")) + 1 && calledwith("Treasure.Save", 1, lastret("Treasure.StartTreasureGuard"))
